@@ -181,5 +181,5 @@ Example C11_nonvacuous_i64 : to_i64 [45; 53] = Ok (-5)%Z /\ to_i64 [45] = Ok 0%Z
 Proof. split; reflexivity. Qed.
 Example C11_nonvacuous_f64 :
   lead_ok 53 /\ all_digits [] = true /\ all_digits [54; 55] = true /\ dec_acc [54; 55] (dec_acc [] (lead_val 53)) < 2 ^ 53 /\
-  to_f64_bits (sgn true ++ 53 :: [] ++ 46 :: [54; 55]) = Ok 13841195892057139446%Z.
-Proof. repeat split; try reflexivity. now left. Qed.
+  to_f64_bits (sgn true ++ 53 :: [] ++ 46 :: [54; 55]) = Ok 13841441907753961390%Z.
+Proof. split; [now left|]. repeat split; vm_compute; reflexivity. Qed.
